@@ -7,7 +7,7 @@ import math
 import multiprocessing as mp
 import time
 
-from harness import common
+from harness import common, gen_targets
 from harness.common import Check
 
 META = {
@@ -386,6 +386,7 @@ def unjson_case(lst) -> tuple:
 def run(ck: Check) -> None:
     common.assert_repo_imports()
     ck.coq_props()
+    gen_targets.run(ck)          # translator tie: Gallina regenerated from the source + coq/gen/EquivC17.v
     thorough = ck.tier == "thorough"
 
     cases: dict[tuple, dict] = {}      # key -> {"way":..., "tags":[...], "base":...}
@@ -529,6 +530,7 @@ def run(ck: Check) -> None:
         "one parameter group with one dense 2x3 float32 parameter; distributed_config None or an unsupported DistributedConfig subclass",
         "float hyperparameters are written to the case files as exact rationals (float.as_integer_ratio), ints exactly",
     ]
+    ck.gen_equiv_verdict()
 
 
 def replay(obj) -> bool:
